@@ -429,8 +429,17 @@ def packAll : List (Str × HVal) → Except Err (List Bytes)
     | .error e, _ => .error e
     | _, .error e => .error e
 
-/-- `Requester.build()`: the message bytes (and the requester as `build` leaves it) -/
-def build (S : Std) (r : Requester) : Except Err (Requester × Bytes) :=
+/-- what `Requester.build` decides before a byte is written: the request target, the header entries in the order
+they are written (Host, Accept-Encoding, Content-Length as far as generated, then the request's own headers), the
+body, and the requester as `build` leaves it -/
+structure Parts where
+  target : Str
+  entries : List (Str × HVal)
+  body : Bytes
+  req : Requester
+  deriving DecidableEq
+
+def buildParts (S : Std) (r : Requester) : Except Err Parts :=
   let ps := S.urlsplit r.path
   let path := ps.path
   let qpath := S.quote path
@@ -443,60 +452,60 @@ def build (S : Std) (r : Requester) : Except Err (Requester × Bytes) :=
     let uq := updateQargsQuery S r.qargs ps.query
     let fragment := if ps.fragment.isEmpty then r.fragment else ps.fragment
     let combine := (S.urlsplit (qpath ++ ['?'] ++ uq.2 ++ ['#'])).geturl
-    let startText := r.method ++ [' '] ++ combine ++ " HTTP/1.1".toList
-    match encodeAscii startText with
-    | .error _ => .error .outOfModel        -- the `.encode('idna')` fallback
-    | .ok startLine =>
-      -- Host
-      let hostLine : Except Err (List Bytes) :=
-        if hhas r.headers "host".toList then .ok []
-        else match encodeAscii (hostValue r.hostname r.port) with
-          | .error _ => .error .outOfModel    -- idna
-          | .ok v => match packHeader "Host".toList [.bytes v] with
-            | .ok l => .ok [l]
-            | .error e => .error e
-      let aeLine : Except Err (List Bytes) :=
-        if hhas r.headers "accept-encoding".toList then .ok []
-        else match packHeader "Accept-Encoding".toList [.str "identity".toList] with
-          | .ok l => .ok [l]
-          | .error e => .error e
-      -- body
-      let bh : Except Err (Bytes × List (Str × HVal)) :=
-        if r.method = sGET then .ok ([], r.headers)
-        else match r.data with
-          | some js =>
-            (match encodeLatin1 js with
-             | .ok b => .ok (b, hset r.headers "content-type".toList (.str "application/json; charset=utf-8".toList))
-             | .error e => .error e)
-          | none =>
-            match r.fargs with
-            | some fa =>
-              let multipart := match odGet r.headers "content-type".toList with
-                | some (.str ct) => startsWith "multipart/form-data".toList ct
-                | some _ => true        -- a bytes/int content-type: `.startswith(str)` raises; not modelled (see below)
-                | none => false
-              if multipart then .error .outOfModel     -- random boundary (or a non-str content-type)
-              else .ok (utf8 (formBody S fa),
-                        hset r.headers "content-type".toList (.str "application/x-www-form-urlencoded; charset=utf-8".toList))
-            | none => .ok (r.body, r.headers)
-      match hostLine, aeLine, bh with
-      | .ok hl, .ok al, .ok (body, headers) =>
-        let clLine : Except Err (List Bytes) :=
-          if !body.isEmpty && !hhas headers "content-length".toList then
-            match packHeader "Content-Length".toList [.str (natStr body.length)] with
-            | .ok l => .ok [l]
-            | .error e => .error e
-          else .ok []
-        match clLine, packAll headers with
-        | .ok cl, .ok hls =>
-          let lines := [startLine] ++ hl ++ al ++ cl ++ hls ++ [[], []]
-          .ok ({ r with path := path, qargs := uq.1, fragment := fragment, headers := headers },
-               joinBytes crlf lines ++ body)
-        | .error e, _ => .error e
-        | _, .error e => .error e
-      | .error e, _, _ => .error e
-      | _, .error e, _ => .error e
-      | _, _, .error e => .error e
+    -- Host
+    let hostE : Except Err (List (Str × HVal)) :=
+      if hhas r.headers "host".toList then .ok []
+      else match encodeAscii (hostValue r.hostname r.port) with
+        | .error _ => .error .outOfModel    -- idna
+        | .ok v => .ok [("Host".toList, .bytes v)]
+    let aeE : List (Str × HVal) :=
+      if hhas r.headers "accept-encoding".toList then [] else [("Accept-Encoding".toList, .str "identity".toList)]
+    -- body
+    let bh : Except Err (Bytes × List (Str × HVal)) :=
+      if r.method = sGET then .ok ([], r.headers)
+      else match r.data with
+        | some js =>
+          (match encodeLatin1 js with
+           | .ok b => .ok (b, hset r.headers "content-type".toList (.str "application/json; charset=utf-8".toList))
+           | .error e => .error e)
+        | none =>
+          match r.fargs with
+          | some fa =>
+            let multipart := match odGet r.headers "content-type".toList with
+              | some (.str ct) => startsWith "multipart/form-data".toList ct
+              | some _ => true        -- a bytes/int content-type: `.startswith(str)` raises; not modelled (see below)
+              | none => false
+            if multipart then .error .outOfModel     -- random boundary (or a non-str content-type)
+            else .ok (utf8 (formBody S fa),
+                      hset r.headers "content-type".toList (.str "application/x-www-form-urlencoded; charset=utf-8".toList))
+          | none => .ok (r.body, r.headers)
+    match hostE, bh with
+    | .ok hl, .ok (body, headers) =>
+      let clE : List (Str × HVal) :=
+        if !body.isEmpty && !hhas headers "content-length".toList then [("Content-Length".toList, .str (natStr body.length))]
+        else []
+      .ok { target := combine, entries := hl ++ aeE ++ clE ++ headers, body := body,
+            req := { r with path := path, qargs := uq.1, fragment := fragment, headers := headers } }
+    | .error e, _ => .error e
+    | _, .error e => .error e
+
+/-- start line, one `packHeader` line per entry, empty line, body -/
+def assemble (method target : Str) (entries : List (Str × HVal)) (body : Bytes) : Except Err Bytes :=
+  match encodeAscii (method ++ [' '] ++ target ++ " HTTP/1.1".toList) with
+  | .error _ => .error .outOfModel        -- the `.encode('idna')` fallback
+  | .ok startLine =>
+    match packAll entries with
+    | .error e => .error e
+    | .ok lines => .ok (joinBytes crlf ([startLine] ++ lines ++ [[], []]) ++ body)
+
+/-- `Requester.build()`: the message bytes (and the requester as `build` leaves it) -/
+def build (S : Std) (r : Requester) : Except Err (Requester × Bytes) :=
+  match buildParts S r with
+  | .error e => .error e
+  | .ok p =>
+    match assemble r.method p.target p.entries p.body with
+    | .error e => .error e
+    | .ok msg => .ok (p.req, msg)
 
 /-! ## `Requestant` (server side request parser) -/
 
